@@ -112,7 +112,8 @@ def execute(case):
             def ann(arg):
                 return Annotated[np.ndarray, ",".join("".join(n) + ":" + "".join(p) for n, p in arg)]
 
-            params = {f"a{k}": ann(a) for k, a in enumerate(ins)}
+            pnames = case.get("params") or [f"a{k}" for k in range(len(ins))]
+            params = {pnames[k]: ann(a) for k, a in enumerate(ins)}
             ret = ann(outs[0]) if len(outs) == 1 else Tuple[tuple(ann(o) for o in outs)]
 
             def f(*args):
@@ -192,8 +193,10 @@ def gen_cases(rng, thorough):
     for _ in range(1500 if thorough else 250):
         ins, outs = rand_struct(rng)
         ins = [a for a in ins] or [[("X", "center")]]
+        # parameter names in no particular (e.g. not alphabetical) order: the declaration order is what counts
         cases.append({"ev": "Hints", "ins": [[[chars(n), chars(p)] for n, p in a] for a in ins],
-                      "outs": [[[chars(n), chars(p)] for n, p in a] for a in outs]})
+                      "outs": [[[chars(n), chars(p)] for n, p in a] for a in outs],
+                      "params": rng.sample(["u", "dx", "phi", "area", "z", "b", "m", "a0"], len(ins))})
     # selection of the predefined operation for every shift and several axis names
     for op in ("diff", "interp", "min", "max", "cumsum"):
         for f in POS:
